@@ -1,6 +1,7 @@
 (* Proofs about Model/ClientShutdown.v (C09). *)
 From JV Require Import Base.Bytes Base.Dec Base.Utf8 Json.Json Json.JsonSer Json.JsonParse Json.JsonWf Model.Wire Model.ClientMgr Model.ClientShutdown.
 From JV Require Import Proofs.JsonFacts.
+From JV Require Import Proofs.ClientDispatchFacts.
 Arguments N.add : simpl never.
 Arguments N.sub : simpl never.
 Arguments N.mul : simpl never.
@@ -651,17 +652,30 @@ Proof.
   end; intro H; inversion H; subst; exact E.
 Qed.
 
-Lemma classify_elem_ok t : elem_ok (classify_elem t).
+(* whatever the order in which the readers are tried *)
+Lemma try_reader_ok rd t x : try_reader rd t = Some x -> elem_ok x.
 Proof.
-  unfold classify_elem. destruct (parse_response t) as [r|] eqn:E.
-  - cbn. unfold parse_response in E. destruct (object_members t); [|discriminate].
+  destruct rd; cbn [try_reader].
+  - destruct (parse_response t) as [r|] eqn:E; [|discriminate]. intro H; inversion H; subst. cbn.
+    unfold parse_response in E. destruct (object_members t); [|discriminate].
     eapply parse_response_members_ok; exact E.
-  - repeat match goal with |- elem_ok match ?x with _ => _ end => destruct x as [[[? ?] ?]|] || destruct x as [[? ?]|] end; exact I.
+  - destruct (parse_sub_notif k_result t) as [[[? ?] ?]|]; [|discriminate]. intro H; inversion H; subst. exact I.
+  - destruct (parse_sub_notif k_error t) as [[[? ?] ?]|]; [|discriminate]. intro H; inversion H; subst. exact I.
+  - destruct (parse_notification t) as [[? ?]|]; [|discriminate]. intro H; inversion H; subst. exact I.
 Qed.
+
+Lemma classify_with_ok rs t : elem_ok (classify_with rs t).
+Proof.
+  induction rs as [|rd rs IH]; cbn [classify_with]; [exact I|].
+  destruct (try_reader rd t) as [x|] eqn:E; [eapply try_reader_ok; exact E | exact IH].
+Qed.
+
+Lemma classify_elem_ok t : elem_ok (classify_elem t).
+Proof. apply classify_with_ok. Qed.
 
 Lemma classify_frame_ok raw ms : classify_frame raw = FArray ms -> Forall elem_ok ms.
 Proof.
-  unfold classify_frame. destruct (drop_while is_ascii_ws raw) as [|c t]; [discriminate|].
+  rewrite classify_frame_now. destruct (drop_while is_ascii_ws raw) as [|c t]; [discriminate|].
   destruct (beqb c x7b); [discriminate|]. destruct (beqb c x5b); [|discriminate].
   destruct (raw_array raw) as [ts|]; [|discriminate]. intro H; inversion H; subst.
   apply Forall_forall. intros x Hx. apply in_map_iff in Hx as (t' & <- & _). apply classify_elem_ok.
@@ -701,8 +715,8 @@ Qed.
 Lemma frame_range_ok s raw lo hi : frame_range s (classify_frame raw) = Some (lo, hi) -> lo <= hi /\ hi <= u64_max.
 Proof.
   unfold frame_range. destruct (classify_frame raw) as [|ms|] eqn:C; try discriminate.
-  apply classify_frame_ok in C.
-  destruct (array_loop s ms [] None false) as [[[[s' rs] [r|]] g]|] eqn:E; try discriminate.
+  apply classify_frame_ok in C. rewrite array_run_now.
+  destruct (array_loop s ms [] None false) as [[[[s' rs] [r|]] g]|[s' f]] eqn:E; cbn [loop_exit]; try discriminate.
   intro H; inversion H; subst. exact (array_loop_rng ms s [] None false _ _ _ _ C I E).
 Qed.
 
@@ -711,8 +725,9 @@ Lemma handle_back_range s fr lo hi : frame_range s fr = Some (lo, hi) ->
   exists s' rs, handle_back s fr =
     if hi =? u64_max then RFatal s' [] FNotPending else batch_response s' rs lo (hi + 1).
 Proof.
-  unfold frame_range, handle_back. destruct fr as [|ms|]; try discriminate.
-  destruct (array_loop s ms [] None false) as [[[[s' rs] [[lo' hi']|]] g]|]; try discriminate.
+  rewrite handle_back_now. unfold frame_range, handle_back_ref. destruct fr as [|ms|]; try discriminate.
+  rewrite array_run_now.
+  destruct (array_loop s ms [] None false) as [[[[s' rs] [[lo' hi']|]] g]|[s' f]]; cbn [loop_exit]; try discriminate.
   intro H; inversion H; subst. exists s', rs. reflexivity.
 Qed.
 
